@@ -2,6 +2,7 @@
 from __future__ import annotations
 
 import dataclasses
+import types
 import typing as t
 
 from vlib import universe
@@ -112,6 +113,12 @@ def _chain_builders():
             v = M.Pong("w", v) if i % 2 == 0 else M.Ping(a + i, v)
         return v if isinstance(v, M.Ping) else M.Ping(a, v)
 
+    def opt_rec(d, a, b):
+        v = None
+        for i in range(d):
+            v = {"k": v}
+        return v
+
     def rec_alias(d, a, b):
         v = {"leaf": b}
         for i in range(d):
@@ -119,7 +126,7 @@ def _chain_builders():
         return v
 
     return {"Chain": (M.Chain, chain), "PNode": (M.PNode, pnode), "Tree": (M.Tree, tree), "DNode": (M.DNode, dnode),
-            "TNode": (M.TNode, tnode), "Ping": (M.Ping, ping), "RecAlias": (M.RecAlias, rec_alias)}
+            "TNode": (M.TNode, tnode), "Ping": (M.Ping, ping), "RecAlias": (M.RecAlias, rec_alias), "OptRec": (M.OptRec, opt_rec)}
 
 
 def _levels(v, depth=0):
@@ -190,7 +197,7 @@ def _value_for(T, members, depth, counter):
     if T is type(None):
         return None
     o = t.get_origin(T)
-    if o is t.Union:
+    if o is t.Union or o is types.UnionType:
         inner = [a for a in t.get_args(T) if a is not type(None)][0]
         return _value_for(inner, members, depth, counter) if depth > 0 else None
     if o is list:
@@ -311,7 +318,7 @@ def make_topo(container, ka, rooti, timeout):
             adj = [bool((bits >> i) & 1) for i in range(9)]
             # odd-parity edges take a second kind on a third of the graphs (direct class members included:
             # a cycle may hold the next class directly as long as some edge lets a value bottom out)
-            kb = ka if bits % 3 else ch.pick(4)
+            kb = ka if bits % 3 else ch.pick(5)
             reached()
             return run_topology(adj, ka, container, rooti, kb)
 
@@ -329,7 +336,7 @@ def conditions(tier, seed):
     for name, (T, b) in _chain_builders().items():
         out.append(make_deep(name, T, b, dmax, to))
     for container in range(4):
-        for ka in range(4):
+        for ka in range(5):
             for rooti in range(3):
                 out.append(make_topo(container, ka, rooti, to))
     return out
